@@ -255,12 +255,14 @@ def bounded_configurations(seed):
             failures.append({"class": klass, "what": what, "case": case})
 
     # catalogue objects: coordinates multiples of 1/8, frames with rational unit vectors (axis and Pythagorean)
-    frames = [((1, 0, 0), (0, 1, 0), (0, 0, 1)), ((1 / 3, 2 / 3, 2 / 3), (2 / 3, 1 / 3, -2 / 3), (2 / 3, -2 / 3, 1 / 3)), ((2 / 7, 3 / 7, 6 / 7), (3 / 7, -6 / 7, 2 / 7), (6 / 7, 2 / 7, -3 / 7))]
+    frames = [((1, 0, 0), (0, 1, 0), (0, 0, 1)), ((1 / 3, 2 / 3, 2 / 3), (2 / 3, 1 / 3, -2 / 3), (2 / 3, -2 / 3, 1 / 3)), ((2 / 7, 3 / 7, 6 / 7), (3 / 7, -6 / 7, 2 / 7), (6 / 7, 2 / 7, -3 / 7)),
+              # axis frames anchored at odd multiples of 1/8: the coordinates themselves are far from every rounding boundary, their products are not
+              ((1, 0, 0), (0, 1, 0), (0, 0, 1), (0.125, 0.125, 1.0)), ((1, 0, 0), (0, 1, 0), (0, 0, 1), (0.125, -0.375, 0.625)), ((0, 1, 0), (0, 0, 1), (1, 0, 0), (0.375, 0.125, -0.125))]
 
     def make(kind, fr, d):
         """object of the kind in frame fr with its first defining coordinate perturbed by d"""
-        e1, e2, e3 = fr
-        o = (0.5, -1.25, 2.0)
+        e1, e2, e3 = fr[:3]
+        o = fr[3] if len(fr) > 3 else (0.5, -1.25, 2.0)
         pt = lambda a, b, c, dx=0.0: P(o[0] + a * e1[0] + b * e2[0] + c * e3[0] + dx, o[1] + a * e1[1] + b * e2[1] + c * e3[1], o[2] + a * e1[2] + b * e2[2] + c * e3[2])
         if kind == "Point":
             return pt(1, 2, 0, d)
